@@ -186,14 +186,24 @@ def stream_sequences(ctx, rep, maxops, record=True):
     _mc(ctx, rep, "Av/Stream.tla", spec, f"stream_{maxops}.cfg",
         f"SPECIFICATION LiveSpec\nCONSTANTS\n  MaxOps = {maxops}\n{STREAM_INV}PROPERTY Live_Completes\nCHECK_DEADLOCK FALSE\n",
         STREAM_ACTIONS, {"MaxOps": maxops}, record=record)
-    cfg = _write(ctx, f"stream_{maxops}_dump.cfg", f"SPECIFICATION Spec\nCONSTANTS\n  MaxOps = {maxops}\nCHECK_DEADLOCK FALSE\n")
-    g, _ = tlc.dump_graph(spec, cfg, workers=2)
+    # the graph that is toured is Stream's unfolded by how the previous life of the stream object ended (StreamLives.tla)
+    lives = ctx.spec("Av", "StreamLives.tla")
+    _mc(ctx, rep, "Av/StreamLives.tla", lives, f"streamlives_{maxops}.cfg",
+        f"SPECIFICATION LLiveSpec\nCONSTANTS\n  MaxOps = {maxops}\n{STREAM_INV}INVARIANT HistOK\nPROPERTY Live_Completes\nCHECK_DEADLOCK FALSE\n",
+        ["L" + a for a in STREAM_ACTIONS], {"MaxOps": maxops}, record=record)
+    cfg = _write(ctx, f"stream_{maxops}_dump.cfg", f"SPECIFICATION LSpec\nCONSTANTS\n  MaxOps = {maxops}\nCHECK_DEADLOCK FALSE\n")
+    g, _ = tlc.dump_graph(lives, cfg, workers=2)
+    kinds = {(n["hist"]["ended"], bool(n["hist"]["hadRtp"])) for n in g.nodes.values() if n["ini"] != "IDLE"}
+    want = {("none", False), ("close", True), ("abort", True), ("abort", False)}
+    if not want <= kinds:
+        raise tlc.TlcError(f"StreamLives graph (MaxOps {maxops}) has no later life after {sorted(want - kinds)}")
     seqs = []
     seen = set()
     for path in tour.greedy_tours(g, max_len=8 * maxops):
         seq = []
         for ei in path:
             _, _, name, args = g.edges[ei]
+            name = name[1:] if name.startswith("LIssue") else name
             if name == "IssueSend":
                 seq.append((str(args[0]), str(args[1])))
             elif name == "IssueRefuse":
@@ -286,7 +296,7 @@ def sdp_models(ctx, rep):
             "INVARIANT Inv_All\nINVARIANT Inv_Absent\nINVARIANT Inv_Conj\nPROPERTY AntiMonotone\nCHECK_DEADLOCK FALSE\n",
             ["Search"], {"RecUuids": [1, 2], "PatUuids": [1, 2, 3], "Handles": h, "Depth": d})
     c = ctx.spec("Sdp", "Continuation.tla")
-    need = ["Connect", "NewRequest", "Serve", "ClientRecv", "Collect"]
+    need = ["Connect", "Disconnect", "NewRequest", "Serve", "ClientRecv", "Collect"]
     if ctx.quick:
         _mc(ctx, rep, "Sdp/Continuation.tla", c, "cont_q.cfg", cont_cfg([1, 2], [2, 3], 5, 2, 1), need,
             {"Clients": [1, 2], "Caps": [2, 3], "MaxAns": 5, "Watchdog": 2, "MaxReq": 1})
@@ -360,6 +370,11 @@ def sdp_shapes(ctx, n, big_ok):
     for mtu in (48, 49, 64):
         for delta in (0, 1):
             add({"mtu": mtu, "tune": "attr" if delta else "sattr", "watchdog": wd, "delta": delta, "nclients": 1 + delta})
+    # a bystander closes its SDP channel between two continuation requests of another client's transaction
+    for mtu in (48, 64):
+        for tune in ("attr", "sattr", "search"):
+            for leaver in (1, -1, 2, -2):
+                add({"mtu": mtu, "tune": tune, "delta": 1, "k": 3, "nclients": 2 + (k % 2), "leaver": leaver})
     while len(shapes) < n:
         add({})
     return shapes
